@@ -98,12 +98,31 @@ func checkNTT(c *engine.Chooser, area, tag string, r *ring.Ring) {
 				}
 			}
 		}
-		if r.Type() != ring.Standard {
-			continue
-		}
 		a, b := vecs[0], vecs[1]
 		var want []uint64
-		if n <= 64 {
+		if r.Type() == ring.ConjugateInvariant {
+			// Z[X+X^-1]/(X^2N+1): the N stored coefficients a_0..a_{N-1} stand for a_0 + sum a_i (X^i + X^-i) with
+			// X^-i = -X^(2N-i); products are taken in the standard ring of degree 2N and stay symmetric
+			if n > 64 {
+				continue
+			}
+			embed := func(v []uint64) []uint64 {
+				e := make([]uint64, 2*n)
+				e[0] = v[0]
+				for i := 1; i < n; i++ {
+					e[i] = v[i]
+					e[2*n-i] = ref.NegMod(v[i], q)
+				}
+				return e
+			}
+			full := ref.NegacyclicMul(embed(a), embed(b), q)
+			want = full[:n]
+			for i := 1; i < n; i++ {
+				if full[2*n-i] != ref.NegMod(full[i], q) || full[n] != 0 {
+					panic("harness: product of symmetric polynomials is not symmetric")
+				}
+			}
+		} else if n <= 64 {
 			want = ref.NegacyclicMul(a, b, q)
 		} else {
 			// b := (q-1)·X^k + 1, k = n/2+1: a·b = a - X^k·a (negacyclic shift)
@@ -133,9 +152,10 @@ func checkNTT(c *engine.Chooser, area, tag string, r *ring.Ring) {
 
 // checkRescale: DivRoundByLastModulusNTT on boundary integers equals round(x/q_L) modulo Q_{L-1} (q_L odd: no ties).
 func checkRescale(c *engine.Chooser, area, tag string, p rlwe.Parameters) {
-	if p.QCount() < 2 || p.RingType() != ring.Standard {
+	if p.QCount() < 2 {
 		return
 	}
+	// coefficient-wise operation: the same definition holds in the conjugate-invariant ring
 	r := p.RingQ()
 	L := r.MaxLevel()
 	moduli := r.ModuliChain()
@@ -354,6 +374,50 @@ func smokeBGV(c *engine.Chooser, area, tag string, p bgv.Parameters) {
 		}
 	}
 	c.Count(2)
+	// One multiplication with relinearisation: exercises the auxiliary basis QMul, the gadget decomposition and the
+	// division by P in the accepted context. Hard noise precondition: the tensor of two fresh ciphertexts m + t·e
+	// (|m| <= t/2, |e| <= B) has coefficients below N·t²(B+1)²; the key switch of its degree-2 part adds at most
+	// #digits·N·q_max·(B+1)·t/P (+ N·t of rounding); a factor 4 of slack on the sum, all below Q/2.
+	N := big.NewInt(int64(p.N()))
+	B := big.NewInt(int64(math.Ceil(p.NoiseBound())) + 1)
+	tb := new(big.Int).SetUint64(t)
+	tensor := new(big.Int).Mul(N, new(big.Int).Mul(new(big.Int).Mul(tb, tb), new(big.Int).Mul(B, B)))
+	qmax := uint64(0)
+	for _, q := range p.Q() {
+		if q > qmax {
+			qmax = q
+		}
+	}
+	digits := int64(p.BaseRNSDecompositionVectorSize(p.MaxLevelQ(), p.MaxLevelP()))
+	ks := new(big.Int).Mul(big.NewInt(digits), new(big.Int).Mul(N, new(big.Int).Mul(new(big.Int).SetUint64(qmax), new(big.Int).Mul(B, tb))))
+	if p.PCount() > 0 {
+		ks.Div(ks, p.PBigInt())
+	}
+	ks.Add(ks, new(big.Int).Mul(N, tb))
+	need := new(big.Int).Lsh(new(big.Int).Add(tensor, ks), 3) // x4 slack, x2 for Q/2
+	if need.Cmp(p.QBigInt()) >= 0 {
+		c.Cover("bgv", "no-budget-for-a-multiplication")
+		return
+	}
+	kgen := rlwe.NewKeyGenerator(p)
+	eval := bgv.NewEvaluator(p, rlwe.NewMemEvaluationKeySet(kgen.GenRelinearizationKeyNew(sk)))
+	prod, err := eval.MulRelinNew(ct, ct)
+	if err != nil {
+		c.Fail("C19/"+area+"/bgv-mulrelin-error", "%s: %v", tag, err)
+		return
+	}
+	if err := ecd.Decode(rlwe.NewDecryptor(p, sk).DecryptNew(prod), got); err != nil {
+		c.Fail("C19/"+area+"/bgv-decode-error", "%s: %v", tag, err)
+		return
+	}
+	for j := range vals {
+		if want := ref.MulMod(vals[j], vals[j], t); got[j] != want {
+			c.Fail(sigFor(area, "bgv-mulrelin", append(p.QP(), t)), "%s: t=%d slot %d: Dec(MulRelin(ct,ct)) = %d, v² mod t = %d (v=%d; noise budget %d bits of %d)", tag, t, j, got[j], want, vals[j], need.BitLen(), p.QBigInt().BitLen())
+			return
+		}
+	}
+	c.Cover("bgv", "mulrelin-checked")
+	c.Count(1)
 }
 
 // smokeCKKS: encode/decode round trip within the rounding error the scale implies.
